@@ -28,7 +28,7 @@ fn expect_c(tag: &str, got: &C, re: Sym, im: Sym) {
 /// Same value bit for bit: identical DAG (modulo commutativity of + and *), else a QF_FP equality for all finite doubles.
 fn bit_identical(tag: &str, a: &C, b: &C, dom: &[B]) {
     for (part, x, y) in [("real", a.real, b.real), ("imag", a.imag, b.imag)] {
-        if x.same(y) { check_that(true, || String::new()); }
+        if x.same(y) { count_case(); check_that(true, || String::new()); }
         else { prove_fp(&format!("{}: {} parts are bit-identical", tag, part), dom, B::or(vec![eq(x, y), B::and(vec![ne(x, x), ne(y, y)])])); }
     }
 }
